@@ -1,16 +1,172 @@
 /-
 C42 — IP-address ACLs match exactly the configured address sets.
 
-Property theorems only; the model is `SquidModel.Acl.Ip` (splay tree: `SquidModel.Acl.DomainTree`).
+Property theorems only.  Model: `SquidModel.Acl.Ip` (src/acl/Ip.cc, src/acl/SplayInserter.h, src/ip/Address.cc; splay tree:
+`SquidModel.Acl.DomainTree` = include/splay.h).  Lemmas: `Acl/IpBits`, `IpOrder`, `IpMerge`, `IpItem`, `IpParse`, `IpCorollaries`.
+
+Vocabulary.  An address is its 16 bytes as a number below 2^128 (IPv4 = `::ffff:a.b.c.d`).  A token list is what `acl NAME src ...`
+carries: `all`, `ipv4`, `ipv6` and numeric tokens `a`, `a/m`, `a-b`, `a-b/m` (`Item`: syntax family, addresses, mask text).
+`unionB toks x` is the reference reading "x belongs to the union of the listed sets": a numeric token with `k` host bits denotes
+`[a with its k low bits cleared .. (b or a) with its k low bits set]` (`Item.lo`, `Item.hi`; host bits below the mask are ignored,
+`/0` denotes everything); the five legacy spellings of "everything" that `parseGlobal` overrides denote everything.
+`verdicts toks probes` runs the model of `ACLIP::parse` on the tokens and then `ACLIP::match` on every probe in turn (each lookup
+splays the tree); `none` = parse did not end normally.
+
+FULL STATEMENT (false of the real code, see the counterexamples):
+  for every token list whose numeric tokens are regular (a proper mask, addresses within the family's width, ranges not reversed)
+  and all probes below 2^128:  verdicts toks probes = some (probes.map (unionB toks)).
+What is proved instead: the same conclusion under the explicit extra hypotheses `Tame` (the special addresses `0.0.0.0` and
+`255.255.255.255` do not meet, as end points of configured values, the addresses on which `Ip::Address::operator < <= > >=`
+special-case them), `ProbeOK` (same for the looked-up address), and, inside `Item.Regular`, "the mask is not /0" and "an IPv6-syntax
+range does not end at ::ffff:0.0.0.0".  Each excluded region has a counterexample theorem below.  No size bounds anywhere.
 -/
-import SquidModel.Acl.Ip
+import SquidModel.Acl.IpCorollaries
 
 namespace SquidModel.C42
 open SquidModel.Acl SquidModel.Acl.Ip
 
-/-- `acl x dst ::1 0.0.0.0`: `::1` is not matched (it is when the two values are written in the other order). -/
+/-- **Main theorem (partial).**  For every list of keywords and regular numeric tokens — any length, any order, duplicates, nesting,
+partial overlaps, both families — whose end points are tame, `parse` ends normally (Merge terminates, nothing is refused, no
+dangling removal) and, after any sequence of earlier lookups, `match(x)` is true exactly when `x` belongs to the union of the
+listed sets, for every harmless probe `x`. -/
+theorem match_iff_union_partial (toks : List Token) (hreg : RegularList toks) (tame : Tame (ctxOf toks))
+    (probes : List Nat) (hp : ∀ x ∈ probes, x < 2 ^ 128 ∧ ProbeOK (ctxOf toks) x) :
+    verdicts toks probes = some (probes.map (unionB toks)) :=
+  verdicts_eq_union hreg tame hp
+
+/-- The same with hypotheses one can read off a configuration: no configured value starts or ends at `0.0.0.0`, none starts at
+`255.255.255.255`, and the probe is neither of the two, also after masking with a configured mask. -/
+theorem match_iff_union_plain (toks : List Token) (hreg : RegularList toks) (hplain : PlainList toks)
+    (probes : List Nat) (hp : ∀ x ∈ probes, PlainProbe toks x) :
+    verdicts toks probes = some (probes.map (unionB toks)) :=
+  verdicts_eq_union hreg (tame_of_plain hplain) (fun x hx => ⟨(hp x hx).1, probeOK_of_plain (hp x hx)⟩)
+
+/-- Lists written entirely in IPv4 syntax (plus keywords) are matched exactly for *every* probe address, IPv4 or IPv6,
+`0.0.0.0` and `255.255.255.255` included, both as values and as probes. -/
+theorem match_iff_union_ipv4_lists (toks : List Token) (hreg : RegularList toks) (h4 : V4List toks)
+    (probes : List Nat) (hp : ∀ x ∈ probes, x < 2 ^ 128) :
+    verdicts toks probes = some (probes.map (unionB toks)) :=
+  verdicts_eq_union hreg (tame_of_v4 hreg h4) (fun x hx => ⟨hp x hx, probeOK_of_v4 hreg h4 x⟩)
+
+/-- Under the hypotheses of the main theorem the order of the values is irrelevant. -/
+theorem match_order_irrelevant (toks toks' : List Token) (hperm : toks.Perm toks') (hreg : RegularList toks)
+    (tame : Tame (ctxOf toks)) (probes : List Nat) (hp : ∀ x ∈ probes, x < 2 ^ 128 ∧ ProbeOK (ctxOf toks) x) :
+    verdicts toks' probes = verdicts toks probes := by
+  rw [verdicts_eq_union hreg tame hp,
+      verdicts_eq_union (regularList_perm hperm hreg) (tame_perm hperm tame)
+        (fun x hx => ⟨(hp x hx).1, probeOK_perm hperm (hp x hx).2⟩)]
+  congr 1
+  apply List.map_congr_left
+  intro x _
+  exact (unionB_perm hperm x).symm
+
+/-- `FactoryParse` stores a regular token with both addresses masked: whatever host bits the configuration had below the mask are
+gone (squid logs "Netmask masks away part of the specified IP"), so the lookup comparator and the insertion comparator see the same
+aligned block — the proviso "given without host bits" is established by the parser, not needed as a hypothesis. -/
+theorem factoryParse_stores_aligned (it : Item) (k : Nat) (h : it.Regular k) :
+    ∃ evs, factoryParse it = some (it.stored k, evs) ∧
+      (it.stored k).mask = pmask k ∧ (it.stored k).addr1 % 2 ^ k = 0 ∧ (it.stored k).addr2 % 2 ^ k = 0 ∧
+      (it.stored k).first = it.lo k ∧ (it.stored k).last = it.hi k := by
+  obtain ⟨evs, hf, w, h1, h2⟩ := factoryParse_spec h
+  exact ⟨evs, hf, w.hmask, w.al1, w.al2, h1, h2⟩
+
+/-- `all` matches every address — for *any* token list that parses, after any lookups. -/
+theorem keyword_all (toks : List Token) (acl : Acl) (ev : List Event) (h : parse toks = .ok acl ev) (hall : Token.all ∈ toks)
+    (earlier : List Nat) (x : Nat) : (matchAddr (matchAll acl earlier []).1 x).2 = true := by
+  have hf := (parseFrom_flags toks _ _ _ _ h).2.2.1 hall
+  have hk := matchAll_keeps earlier acl []
+  rw [matchAddr_all (by rw [hk.1]; exact hf.1) (by rw [hk.2.1]; exact hf.2)]
+
+/-- `ipv4` matches every IPv4 address — for any token list that parses, after any lookups. -/
+theorem keyword_ipv4 (toks : List Token) (acl : Acl) (ev : List Event) (h : parse toks = .ok acl ev) (h4 : Token.ipv4 ∈ toks)
+    (earlier : List Nat) (x : Nat) (hx : isIPv4 x = true) : (matchAddr (matchAll acl earlier []).1 x).2 = true := by
+  have hf := (parseFrom_flags toks _ _ _ _ h).2.2.2.1 h4
+  have hk := matchAll_keeps earlier acl []
+  exact matchAddr_ipv4 (by rw [hk.1]; exact hf) hx
+
+/-- `ipv6` matches every address that is not IPv4 — for any token list that parses, after any lookups. -/
+theorem keyword_ipv6 (toks : List Token) (acl : Acl) (ev : List Event) (h : parse toks = .ok acl ev) (h6 : Token.ipv6 ∈ toks)
+    (earlier : List Nat) (x : Nat) (hx : isIPv4 x = false) : (matchAddr (matchAll acl earlier []).1 x).2 = true := by
+  have hf := (parseFrom_flags toks _ _ _ _ h).2.2.2.2 h6
+  have hk := matchAll_keeps earlier acl []
+  exact matchAddr_ipv6 (by rw [hk.2.1]; exact hf) hx
+
+/-- Lookups splay the tree but never change the switches nor the left-to-right sequence of stored values (no hypotheses). -/
+theorem lookups_keep_stored (acl : Acl) (probes : List Nat) :
+    (matchAll acl probes []).1.any4 = acl.any4 ∧ (matchAll acl probes []).1.any6 = acl.any6 ∧
+    (matchAll acl probes []).1.tree.inorder = acl.tree.inorder :=
+  matchAll_keeps probes acl []
+
+/-! ### counterexamples: every excluded region is needed (all by evaluation of the model; the same inputs are in corpus/C42
+and behave identically in the real code) -/
+
+/-- a single IPv4 address as a token -/
+def one4 (a : Nat) : Token := .item ⟨.v4, a, none, .none⟩
+
+/-- `acl x dst ::1 0.0.0.0` does not match `::1`; written in the other order it does.  (`Tame` fails: `0.0.0.0` meets `::1`.) -/
 theorem anyaddr_order_counterexample :
     verdicts [.item ⟨.v6, 1, none, .none⟩, .item ⟨.v4, 0, none, .none⟩] [1, V4ANY] = some [false, true] ∧
-    verdicts [.item ⟨.v4, 0, none, .none⟩, .item ⟨.v6, 1, none, .none⟩] [1, V4ANY] = some [true, true] := by decide
+    verdicts [.item ⟨.v4, 0, none, .none⟩, .item ⟨.v6, 1, none, .none⟩] [1, V4ANY] = some [true, true] ∧
+    unionB [.item ⟨.v6, 1, none, .none⟩, .item ⟨.v4, 0, none, .none⟩] 1 = true := by decide
+
+/-- `acl x src ::1-::5` matches the client address `0.0.0.0`.  (`ProbeOK` fails.) -/
+theorem range_matches_anyaddr_counterexample :
+    verdicts [.item ⟨.v6, 1, some 5, .none⟩] [V4ANY] = some [true] ∧
+    unionB [.item ⟨.v6, 1, some 5, .none⟩] V4ANY = false := by decide
+
+/-- `acl x src 2001:db8::1-2001:db8::ff` matches the address `255.255.255.255`.  (`ProbeOK` fails.) -/
+theorem range_matches_noaddr_counterexample :
+    verdicts [.item ⟨.v6, 0x20010db8000000000000000000000001, some 0x20010db80000000000000000000000ff, .none⟩] [V4NO] = some [true] ∧
+    unionB [.item ⟨.v6, 0x20010db8000000000000000000000001, some 0x20010db80000000000000000000000ff, .none⟩] V4NO = false := by decide
+
+/-- the masked client address is what counts: `acl x src ::-::2000/115` matches `0.0.0.1`. -/
+theorem masked_probe_counterexample :
+    verdicts [.item ⟨.v6, 0, some 0x2000, .cidr 115⟩] [V4ANY + 1] = some [true] ∧
+    unionB [.item ⟨.v6, 0, some 0x2000, .cidr 115⟩] (V4ANY + 1) = false := by decide
+
+/-- `acl x src ::/0` matches only `::`.  (`Item.Regular.nz` fails: the mask is /0.) -/
+theorem v6_slash_zero_counterexample :
+    verdicts [.item ⟨.v6, 0, none, .cidr 0⟩] [0, 1] = some [true, false] ∧
+    unionB [.item ⟨.v6, 0, none, .cidr 0⟩] 1 = true := by decide
+
+/-- an IPv6-syntax range that ends at `::ffff:0.0.0.0` is read as its first address alone.  (`Item.Regular.deg` fails.) -/
+theorem range_end_anyaddr_counterexample :
+    verdicts [.item ⟨.v6, 5, some V4ANY, .none⟩] [5, 6] = some [true, false] ∧
+    unionB [.item ⟨.v6, 5, some V4ANY, .none⟩] 6 = true := by decide
+
+/-- a reversed range followed by a range that covers it: `Compare(v, v) ≠ 0`, `Merge` cannot find the stored value it is about to
+free — the real code then reads freed memory (ASan: heap-use-after-free).  (`Item.Regular.r2` fails: the range is reversed.) -/
+theorem reversed_range_dangling_counterexample :
+    parse [.item ⟨.v4, 0x0a000005, some 0x0a000003, .none⟩, .item ⟨.v4, 0x0a000001, some 0x0a000009, .none⟩] = .dangling ∧
+    Ip.compare ⟨V4ANY + 0x0a000005, V4ANY + 0x0a000003, ALL1⟩ ⟨V4ANY + 0x0a000005, V4ANY + 0x0a000003, ALL1⟩ = -1 := by decide
+
+/-! ### the hypotheses are satisfiable and the reference reading is not vacuous -/
+
+/-- squid.conf's `localnet`-style list: private IPv4 networks and IPv6 ULA / link-local -/
+def localnet : List Token :=
+  [.item ⟨.v4, 0x0a000000, none, .cidr 8⟩, .item ⟨.v4, 0xac100000, none, .cidr 12⟩, .item ⟨.v4, 0xc0a80000, none, .dotted 0xffff0000⟩,
+   .item ⟨.v6, 0xfc00 <<< 112, none, .cidr 7⟩, .item ⟨.v6, 0xfe80 <<< 112, none, .cidr 10⟩,
+   .item ⟨.v4, 0x0a000005, some 0x0a000009, .none⟩, .item ⟨.v4, 0x0a010203, none, .cidr 24⟩]
+
+example : RegularList localnet := regularList_of_okB (by decide)
+example : PlainList localnet := by decide
+example : PlainProbe localnet (V4ANY + 0x0a636363) ∧ PlainProbe localnet (0xfe80 <<< 112 + 1) ∧ PlainProbe localnet 1 := by decide
+/-- the theorem's answer on concrete probes: 10.99.99.99 yes, 172.32.0.0 no, 192.168.255.255 yes, fe80::1 yes, ::1 no -/
+example : [V4ANY + 0x0a636363, V4ANY + 0xac200000, V4ANY + 0xc0a8ffff, 0xfe80 <<< 112 + 1, 1].map (unionB localnet)
+    = [true, false, true, true, false] := by decide
+/-- and the model run on them -/
+example : verdicts localnet [V4ANY + 0x0a636363, V4ANY + 0xac200000, V4ANY + 0xc0a8ffff, 0xfe80 <<< 112 + 1, 1]
+    = some [true, false, true, true, false] := by decide
+/-- an IPv4-only list with both special addresses as values -/
+example : RegularList [one4 0, one4 0xffffffff, .item ⟨.v4, 0xe0000000, none, .cidr 3⟩] ∧
+    V4List [one4 0, one4 0xffffffff, .item ⟨.v4, 0xe0000000, none, .cidr 3⟩] :=
+  ⟨regularList_of_okB (by decide), by intro it h; simp [one4] at h; rcases h with rfl | rfl | rfl <;> rfl⟩
+/-- irregular tokens are recognised: /33 on IPv4, a reversed range, a non-contiguous netmask, /0 -/
+example : Item.regularB ⟨.v4, 0x0a000000, none, .cidr 33⟩ = false ∧ Item.regularB ⟨.v4, 9, some 3, .none⟩ = false ∧
+    Item.regularB ⟨.v4, 0, none, .dotted 0xff00ff00⟩ = false ∧ Item.regularB ⟨.v6, 0, none, .cidr 0⟩ = false := by decide
+/-- partial overlaps are combined, nested values dropped: 10.0.0.1-5, 10.0.0.3-9, 10.0.0.4 end up as one stored range -/
+example : (match parse [.item ⟨.v4, 0x0a000001, some 0x0a000005, .none⟩, .item ⟨.v4, 0x0a000003, some 0x0a000009, .none⟩, one4 0x0a000004] with
+    | .ok acl ev => (acl.tree.inorder, ev)
+    | _ => ([], [])) = ([⟨V4ANY + 0x0a000001, V4ANY + 0x0a000009, ALL1⟩], [.combined, .ignoredNew]) := by decide
 
 end SquidModel.C42
